@@ -138,6 +138,65 @@ func goExecMore3(t []string) (string, bool) {
 			}
 		}
 		return fmt.Sprintf("res %s rel=%s calls=%s", outcome, keys.Hex(rel), strings.Join(tr, ",")), true
+	case "st.frame":
+		// the Frame interface (GetHeader / GetBrand / GetFooter, CheckArmor62Frame) at arbitrary moments of a read
+		var hc saltpack.HeaderChecker
+		var fc saltpack.FrameChecker
+		if t[1] != "none" {
+			hc, fc = armorCheckers(saltpack.MessageType(atoi(t[1])))
+		}
+		dec, frame, _ := saltpack.NewArmor62DecoderStream(&scriptedReader{parseScriptEntries(t[2])}, hc, fc)
+		var tr []string
+		frameErr := func(err error) string {
+			if strings.Contains(err.Error(), "can be retrieved only after") {
+				return "not-ready"
+			}
+			return rerr(err)
+		}
+		for _, a := range strings.Split(t[3], ".") {
+			switch {
+			case a == "h":
+				if h, err := frame.GetHeader(); err != nil {
+					tr = append(tr, "h!"+frameErr(err))
+				} else {
+					tr = append(tr, "h="+keys.Hex([]byte(h)))
+				}
+			case a == "b":
+				if h, err := frame.GetBrand(); err != nil {
+					tr = append(tr, "b!"+frameErr(err))
+				} else {
+					tr = append(tr, "b="+keys.Hex([]byte(h)))
+				}
+			case a == "f":
+				if h, err := frame.GetFooter(); err != nil {
+					tr = append(tr, "f!"+frameErr(err))
+				} else {
+					tr = append(tr, "f="+keys.Hex([]byte(h)))
+				}
+			case strings.HasPrefix(a, "c"):
+				if b, err := saltpack.CheckArmor62Frame(frame, saltpack.MessageType(atoi(a[1:]))); err != nil {
+					tr = append(tr, "c!"+frameErr(err))
+				} else {
+					tr = append(tr, "c="+keys.Hex([]byte(b)))
+				}
+			case strings.HasPrefix(a, "r"):
+				buf := make([]byte, atoi(a[1:]))
+				n, err := dec.Read(buf)
+				tr = append(tr, fmt.Sprintf("r=%s:%s", keys.Hex(buf[:n]), rerr(err)))
+			case a == "a":
+				for k := 0; k < 1<<20; k++ {
+					buf := make([]byte, 64)
+					n, err := dec.Read(buf)
+					tr = append(tr, fmt.Sprintf("r=%s:%s", keys.Hex(buf[:n]), rerr(err)))
+					if err != nil {
+						break
+					}
+				}
+			default:
+				return "bad-op", true
+			}
+		}
+		return "ok " + strings.Join(tr, " "), true
 	case "st.punct":
 		pr := saltpack.VerifNewPunctuatedReader(&scriptedReader{parseScriptEntries(t[2])}, '.')
 		var tr []string
